@@ -1,0 +1,17 @@
+//go:build verif
+
+// Contracts for cmd/cim2cas, read by /verif/engine (vcheck).  Comments only.
+
+package main
+
+// run: the cassette container - 8-byte sync header, ten 0xD0 type bytes, the
+// name truncated or space-padded to six characters (default: the input file
+// name), the sync header again, start, end = start+length-1, exec = start,
+// then the unmodified image; run fails only if an OS / I/O call failed.
+//@ func run() (err error)
+//@   layer P
+//@   props C19
+//@   requires g.NC == 0 && !g.OSFailed
+//@   ensures [fails-only-with-the-OS] err == nil || g.OSFailed
+//@   ensures [container] err != nil || !vsFits(g.In, off0) || vsCasContainer(g, uint16(off0), nam, cim)
+//@   modifies nam, g.In, g.NC, g.C0, g.C1, g.C2, g.C3, g.C4, g.C5, g.C6, g.C7, g.C8, g.C9, g.OSFailed
